@@ -7,7 +7,8 @@ Domain : smooth configurations of supported models: family S (no constraint rows
          actuator_biasprm[1:3], tendon_stiffness/damping, opt.gravity).  Points within 1e-3 of a ctrl/force/act
          clamp or a limit activation boundary are excluded (the statement's "smooth configurations").
 Oracle : for g(x) = (qacc, qvel', qpos', act') of mjx.step at x = (tangent-space dq, qvel, ctrl, act, params):
-         jax.jacfwd(g) is finite and equals central finite differences of the *same jitted g* (h = 1e-6 scaled);
+         jax.jacfwd(g) is finite and equals central finite differences of the *same jitted g* (median of h, 2h, 4h
+         with h = 1e-6 scaled);
          jax.jacrev(g) equals jacfwd(g).
 Non-trivial: nv >= 3 and (a free/ball joint or an actuator with activation dynamics).
 """
@@ -233,7 +234,7 @@ RULE = ('models: vf.gen_mjx.models without active contacts; family S = no constr
         'clamps, joint/tendon limit boundaries, tendon spring dead-band, any active contact. g = (qacc, qvel\', qpos\', act\') of '
         'mjx.step; inputs = tangent dq, qvel, ctrl, act, model parameters. Non-trivial = nv>=3 and (free/ball joint or stateful '
         'actuator); distinct by (model xml, state seed).')
-ASSUMPTIONS = ['finite differences are taken on the same jitted function as AD (central, h=1e-6*max(1,|x_i|))',
+ASSUMPTIONS = ['finite differences are taken on the same jitted function as AD (central; element-wise median of step sizes h, 2h, 4h with h=1e-6*max(1,|x_i|))',
                'reverse mode through the constraint solver is only defined for opt.iterations=1 (while_loop otherwise): '
                'family K uses iterations=1, family S has no constraint rows',
                'model parameters are perturbed in mjx.Model only (derived compile-time quantities such as invweight0 are inputs, not recomputed)',
@@ -289,12 +290,16 @@ def shard_main(ck, shard, nshards):
         Jf = np.asarray(G.jfwd(jp.asarray(x0), qpos0, dxs))
       except Exception as e:
         raise Violation('jax.jacfwd(step) raised %s: %s' % (type(e).__name__, str(e)[:300]), bucket='jacfwd-exception')
+      # robust central differences: three step sizes (h, 2h, 4h), element-wise median.  One Newton iteration with a
+      # line search is a piecewise algorithm: isolated inputs (measured: a single point among 9 on a 3e-6 grid) give an
+      # outlier value; a single corrupted sample can spoil at most one of the three estimates.
       h = H * np.maximum(1.0, np.abs(x0))
-      X = np.concatenate([x0 + np.diag(h), x0 - np.diag(h), x0[None]])
-      Y = np.asarray(G.jg(jp.asarray(X), qpos0, dxs))
       n = G.nx
+      X = np.concatenate([x0 + k * np.diag(h) for k in (1, 2, 4)] + [x0 - k * np.diag(h) for k in (1, 2, 4)] + [x0[None]])
+      Y = np.asarray(G.jg(jp.asarray(X), qpos0, dxs))
       g0 = Y[-1]
-      Jfd = ((Y[:n] - Y[n:2 * n]) / (2 * h[:, None])).T
+      ests = [((Y[i * n:(i + 1) * n] - Y[(3 + i) * n:(4 + i) * n]) / (2 * k * h[:, None])).T for i, k in enumerate((1, 2, 4))]
+      Jfd = np.median(np.stack(ests), axis=0)
       if not np.all(np.isfinite(Jf)):
         bad = np.argwhere(~np.isfinite(Jf))[0]
         raise Violation('jacfwd of step is not finite: d out[%d] / d %s = %s (g finite: %s)' % (
